@@ -277,3 +277,33 @@ func genI2Quirk(r *rng, n int, w *bufio.Writer) {
 		}
 	}
 }
+
+// genQuirkRule: a /…/ rule of the quirk grammar ($match-case two times in three).
+func genQuirkRule(r *rng) *rules.NetworkRule {
+	for k := 0; k < 50; k++ {
+		re := genQuirkText(r)
+		if r.chance(1, 3) {
+			re = pick(r, []string{"", "ads", `\/`, "x"}) + "(" + re + ")" + pick(r, []string{"", "banner", `\.js`, "y"})
+		}
+		t := "/" + re + "/"
+		if r.chance(2, 3) {
+			t += "$match-case"
+		}
+		if g, err := guardRule(t, 1); err == nil && g != nil && g.IsRegexRule() {
+			return g
+		}
+	}
+
+	return genRegexRule(r)
+}
+
+// quirkTwoCase: does the text contain a class of the two cases of a letter?
+func quirkTwoCase(p string) bool {
+	for i := 0; i+3 < len(p); i++ {
+		if p[i] == '[' && p[i+3] == ']' && p[i+1] != p[i+2] && p[i+1]|0x20 == p[i+2]|0x20 && (p[i+1]|0x20) >= 'a' && (p[i+1]|0x20) <= 'z' {
+			return true
+		}
+	}
+
+	return false
+}
